@@ -358,6 +358,7 @@ var c18Priors = []string{
 	"established; a frame with RSV1 was read (error reported, Close 1002 queued), never flushed; dropped",
 	"established; the server reset the connection, a blocking Write failed; dropped",
 	"established; the client sent its Close, then a WriteFrame of a pooled frame with a 100-byte payload was refused; dropped",
+	"established; a ping was read (its pong is queued) and the application simply connects again: the stream is still active",
 }
 
 func c18Body(x *engine.X) { c18BodyOpt(x, false) }
@@ -440,7 +441,7 @@ func c18BodyOpt(x *engine.X, onlyFailing bool) {
 		x.Note("prior session: %s", c18Priors[prior])
 		pframes := hsFrames(1)
 		switch prior {
-		case 3:
+		case 3, 7:
 			pframes = []wsref.Frame{{Fin: true, Op: wsref.OpPing, Payload: []byte("pp")}}
 		case 4:
 			pframes = []wsref.Frame{{Fin: true, Rsv: 4, Op: wsref.OpText, Payload: []byte("x")}}
@@ -478,6 +479,13 @@ func c18BodyOpt(x *engine.X, onlyFailing bool) {
 			}
 			if _, err := ws.NextFrame(); err == nil {
 				x.Inconclusive("prior session: the read after the reset did not fail")
+			}
+		case 7:
+			if f, err := ws.NextFrame(); err != nil || !f.Opcode().IsPing() {
+				x.Inconclusive(fmt.Sprintf("prior session: the ping was not read (%v)", err))
+			}
+			if ws.State() != websocket.StateActive {
+				x.Inconclusive("prior session: the stream is not active after reading a ping")
 			}
 		case 4:
 			if _, err := ws.NextFrame(); err == nil {
